@@ -20,7 +20,7 @@ func inLoop(fn *ssa.Function, in ssa.Instruction) bool {
 }
 
 func checkC11(p *ana.Prog, r *ana.Result) {
-	r.Explain("C11 (structural necessary conditions): field kinds - each NTS extension kind packs the type constant its own unpack accepts, pairwise distinct (shared with C14); single use - FetchData hands out a copy of the data and then drops exactly the first cookie on every success path, NewRequestPacket reads only Cookie[0] and appends exactly one cookie field outside any loop, both clients build the request from the FetchData result of the same invocation and never inside a retry loop; placeholder count - the placeholder loop runs from len(cookies handed out) to the constant 8 in steps of one and appends exactly one placeholder per iteration; server issue - in both listeners the cookie loop's trip count is len(Cookies)+len(CookiePlaceholders) of the request, every iteration seals the session cookie under provider.Current() and appends the freshly allocated result of Encode() of that iteration (no shared buffer), and the reply is built from that list; pool refill - cookies are stored only by ProcessResponse after authentication, one StoreCookie per decoded cookie; authenticated fields only - nts.DecodePacket reads no extension header after the authenticator, so fields behind it are neither stored as cookies nor counted as requested cookies. The fields the server counts are those of this datagram only (same per-datagram-state rule as C09).")
+	r.Explain("C11 (structural necessary conditions): field kinds - each NTS extension kind packs the type constant its own unpack accepts, pairwise distinct (shared with C14); single use - FetchData hands out a copy of the data and then drops exactly the first cookie on every success path, NewRequestPacket reads only Cookie[0] and appends exactly one cookie field outside any loop, both clients build the request from the FetchData result of the same invocation and never inside a retry loop; placeholder count - the placeholder loop runs from len(cookies handed out) to the constant 8 in steps of one and appends exactly one placeholder per iteration; server issue - in both listeners the cookie loop's trip count is len(Cookies)+len(CookiePlaceholders) of the request, every iteration seals the session cookie under provider.Current() and appends the freshly allocated result of Encode() of that iteration (no shared buffer), and the reply is built from that list; pool refill - cookies are stored only by ProcessResponse after authentication, one StoreCookie per decoded cookie; authenticated fields only - nts.DecodePacket reads no extension header after the authenticator, so fields behind it are neither stored as cookies nor counted as requested cookies. The fields the server counts are those of this datagram only (same per-datagram-state rule as C09). Space tests: the errShortBuffer test of each extension encoder, read as a sum of lengths, never demands more than the bytes the encoder occupies. Pool copies: ReadData stores its own copy of every cookie record (shared with C20); cookies are sealed from and opened into values of their own (shared with C10).")
 	r.Undecided("that the pool never exceeds eight / never shrinks (run-time count of what the server returns), the size budget at each pool level (length arithmetic over run-time values), re-keying dynamics")
 	// the pool holds the cookies the server issued: ReadData stores its own copy of every cookie
 	// record (a view into the stream reader's buffer is overwritten by the next read - all pool
